@@ -376,3 +376,133 @@ def case_to_coq(c, fuel=600):
         t = to_coq(c["t"])
         return f"[Zb (copyable {t}); Zb (droppable {t}); Zb (linear {t})]"
     raise ValueError(c)
+
+
+# ------------------------------------------------------------------ generic calls (round 2)
+def copyable(t):
+    """spec-side copy of TypeBase.copyable on neutral terms (id conventions of Ty.v)"""
+    if t[0] == "E": return bool(t[1] & 2)
+    k = t[1][0]
+    if k == "boundT": return bool(t[1][2])
+    if k in ("opaque", "struct"): return not (t[1][1] & 1) and all(copyable(c) for c in t[2])
+    if k in ("tuple", "argT"): return all(copyable(c) for c in t[2])
+    return True
+
+
+def droppable(t):
+    if t[0] == "E": return bool(t[1] & 4)
+    k = t[1][0]
+    if k == "boundT": return bool(t[1][3])
+    if k in ("opaque", "struct"): return not (t[1][1] & 2) and all(droppable(c) for c in t[2])
+    if k in ("tuple", "argT"): return all(droppable(c) for c in t[2])
+    return True
+
+
+def bound_ok(x, w):
+    return (not (x & 2) or copyable(w)) and (not (x & 4) or droppable(w))
+
+
+def is_num(t):
+    return t[0] == "N" and t[1][0] == "num"
+
+
+def annot(t):
+    """Python annotation source of a neutral type (call tie): vars are module-level T<id>/n<id>"""
+    if t[0] == "E":
+        return ("n" if t[1] & 1 else "T") + str(t[1])
+    h, a = t[1], t[2]
+    k = h[0]
+    if k in ("argT", "argC"): return annot(a[0])
+    if k == "num": return ["nat", "int", "float"][h[1]]
+    if k == "none": return "None"
+    if k == "cval": return str(h[1])
+    if k == "tuple": return "tuple[" + ", ".join(annot(c) for c in a) + "]"
+    if k == "fun":
+        n = len(h[1])
+        return "Callable[[" + ", ".join(annot(c) for c in a[:n]) + "], " + annot(a[n]) + "]"
+    if k == "opaque":
+        name = {BOOL: "bool", ARRAY: "array", OPTION: "Option"}[h[1]]
+        return name + ("[" + ", ".join(annot(c) for c in a) + "]" if a else "")
+    raise ValueError(t)
+
+
+class CallGen:
+    """generic first-order signatures x argument type lists"""
+    def __init__(self, r):
+        self.r = r
+        self.pool = [tvar(1), tvar(2), tvar(3), tvar(4, 0, 0), tvar(5, 0, 1)]
+        self.cpool = [cvar(20), cvar(21)]
+
+    def closed(self, depth, copy_only=False):
+        r = self.r
+        if depth <= 0 or r.random() < 0.35:
+            return r.choice([num(0), num(1), num(1), num(2), opaque(BOOL), NONE])
+        k = r.choice(["tuple", "tuple", "array", "option", "fun"] if not copy_only else ["tuple", "option", "fun"])
+        if k == "tuple": return tup(*[self.closed(depth - 1, copy_only) for _ in range(r.choice([1, 2, 2, 3]))])
+        if k == "array": return opaque(ARRAY, [argT(self.closed(depth - 1, True)), argC(cval(r.choice([1, 2, 3])))])
+        if k == "option": return opaque(OPTION, [argT(self.closed(depth - 1, copy_only))])
+        return fun([(self.closed(depth - 1, True), 0) for _ in range(r.choice([0, 1, 2]))], self.closed(depth - 1, True))
+
+    def param_ty(self, depth, tvs, cvs):
+        r = self.r
+        if depth <= 0 or r.random() < 0.3:
+            return r.choice(tvs) if r.random() < 0.7 else r.choice([num(0), num(1), num(2), opaque(BOOL)])
+        k = r.choice(["tuple", "tuple", "array", "option", "fun", "var"])
+        if k == "var": return r.choice(tvs)
+        if k == "tuple": return tup(*[self.param_ty(depth - 1, tvs, cvs) for _ in range(r.choice([1, 2, 2, 3]))])
+        if k == "array":
+            c = r.choice(cvs) if cvs and r.random() < 0.6 else cval(r.choice([1, 2, 3]))
+            return opaque(ARRAY, [argT(self.param_ty(depth - 1, tvs, cvs)), argC(c)])
+        if k == "option": return opaque(OPTION, [argT(self.param_ty(depth - 1, tvs, cvs))])
+        return fun([(self.param_ty(depth - 1, tvs, cvs), 0) for _ in range(r.choice([1, 1, 2]))], self.param_ty(depth - 1, tvs, cvs))
+
+    def mutate_closed(self, t):
+        r = self.r
+        if t[0] == "N" and t[2] and r.random() < 0.6:
+            i = r.randrange(len(t[2]))
+            return ["N", t[1], [self.mutate_closed(c) if j == i else c for j, c in enumerate(t[2])]]
+        if t[0] == "N" and t[1][0] in ("argT", "argC"):
+            return ["N", t[1], [self.mutate_closed(t[2][0])]]
+        if is_num(t): return num(r.choice([0, 1, 2]))
+        if t[0] == "N" and t[1][0] == "cval": return cval(r.choice([1, 2, 3]))
+        if t[0] == "N" and t[1][0] == "tuple" and r.random() < 0.5:
+            return tup(*([c[2][0] for c in t[2]] + [num(1)]))
+        return self.closed(1)
+
+    def case(self):
+        r = self.r
+        tvs = r.sample(self.pool, r.choice([1, 2, 2, 3]))
+        cvs = r.sample(self.cpool, r.choice([0, 0, 1]))
+        n = r.choice([1, 2, 2, 3])
+        ins = [self.param_ty(r.choice([0, 1, 2]), tvs, cvs) for _ in range(n)]
+        used = set(v for i in ins for v in vars_of(i))
+        params = [v[1] for v in tvs + cvs if v[1] in used]
+        shape = "call-instance"
+        # (a quantified variable that occurs in no parameter type cannot be written with guppy.type_var;
+        #  the theorem's `covers` hypothesis excludes it)
+        th = {}
+        for x in params:
+            if x & 1: th[x] = cval(r.choice([1, 2, 3]))
+            else:
+                viol = r.random() < 0.2
+                th[x] = self.closed(r.choice([0, 1, 2]), copy_only=not viol and bool(x & 2))
+        acts = [resolve(i, th) for i in ins]
+        x = r.random()
+        if x < 0.3:
+            j = r.randrange(n); acts[j] = self.mutate_closed(acts[j]); shape = "call-mutated"
+        elif x < 0.4:
+            j = r.randrange(n); acts[j] = self.closed(r.choice([0, 1, 2])); shape = "call-random-arg"
+        elif x < 0.45 and n > 1:
+            acts = acts[:-1]; shape = "call-arity"
+        elif x < 0.6:
+            js = [j for j in range(n) if is_num(acts[j])]
+            if js:      # numeric widening / narrowing at top level (try_coerce_to)
+                j = r.choice(js); acts[j] = num(r.choice([0, 1, 2])); shape = "call-numeric"
+        if any(not vars_of(a) == [] for a in acts):
+            acts = [resolve(a, {v: num(1) for v in vars_of(a)}) for a in acts]
+        return {"kind": "call", "params": params, "ins": ins, "acts": acts, "shape": shape}
+
+
+def call_to_coq(c, fuel=600):
+    lst = lambda ts: "[" + "; ".join(to_coq(t) for t in ts) + "]" if ts else "(@nil ty)"
+    return f"ser_call (synth_call {fuel} {_nl(c['params'])} {lst(c['ins'])} {lst(c['acts'])})"
